@@ -860,7 +860,8 @@ impl SimHooks for Hooks {
                         *s = ASt::Runnable;
                     }
                 }
-                if c.cfg.yield_swap {
+                // never switch context in the middle of an unwinding panic (poisoning release)
+                if c.cfg.yield_swap && !std::thread::panicking() {
                     yield_point();
                 }
             }
